@@ -1,5 +1,5 @@
 """C19 - malformed ISA definitions and unmet version requirements are rejected (validation kernels)."""
-from pyvc.registry import contract, spec, declare_const
+from pyvc.registry import contract, spec, declare_const, declare_fields
 from . import common  # noqa
 
 M = 'bespokeasm.assembler.model:AssemblerModel'
@@ -91,3 +91,36 @@ contract(IS, props=['C19'],
                           inv=[NO_KW, 'macro_list is entry(macro_list)', 'self._macro_mnemonics is entry(self._macro_mnemonics)',
                                'forall(lambda j: implies(i <= j and j < len(macro_list), '
                                'forall(lambda kw: implies(kw in ASSEMBLER_KEYWORD_SET, str_lower(kw) != elems(macro_list)[j]._mnemonic), types={"kw": "str"})))'])})
+
+# ---- #require "<language> <op> <version>": honoured exactly when the ISA version satisfies the comparison -------------
+RL = 'bespokeasm.assembler.line_object.preprocessor_line.required_language:RequiredLanguageLine.__init__'
+declare_fields('RequiredLanguageLine', _language='str', _operator_str='str', _version_obj='version')
+
+
+@spec
+def ver_holds(op, a, b):
+    """the stated comparison, in semantic-version order (a: the ISA's version, b: the required one)"""
+    if op == '>=':
+        return not semver_lt(a, b)
+    if op == '<=':
+        return not semver_lt(b, a)
+    if op == '>':
+        return semver_lt(b, a)
+    if op == '<':
+        return semver_lt(a, b)
+    if op == '==':
+        return not semver_lt(a, b) and not semver_lt(b, a)
+    return False
+
+
+OPS = 'str_strip(value_of(require_match.group(2)))'
+VER = 'str_strip(value_of(require_match.group(3)))'
+contract(RL, props=['C19'], name='require-line', blocks_only=True,
+         params={'memzone': 'MemoryZone?'}, locals={'require_match': 'match', 'version_str': 'str'},
+         blocks={'compare': dict(
+             where='between:self._operator_str = ::if log_verbosity > 1', locals={},
+             requires=['require_match.group(2) is not None', 'require_match.group(3) is not None'],
+             # rejected exactly when the ISA's version does not satisfy the comparison (or the operator is unknown)
+             raises={'SystemExit': f'not ver_holds({OPS}, isa_model._isa_version, {VER})'},
+             ensures=[f'self._operator_str == {OPS}'],
+             modifies=['self._operator_str', 'self._version_obj'], allocates=True)})
